@@ -22,7 +22,9 @@ def kindOfTK : TK → TokKind
   | .eq => K "=" | .ne => K "!=" | .lt => K "<" | .le => K "<=" | .gt => K ">" | .ge => K ">="
   | .like => K "LIKE" | .in_ => K "IN" | .between => K "BETWEEN" | .is_ => K "IS" | .not_ => K "NOT"
   | .and_ => K "AND" | .or_ => K "OR" | .unnest => K "UNNEST" | .select => K "SELECT"
-  | .litStart => K "CASE" | .other => .bad
+  | .case_ => K "CASE" | .when_ => K "WHEN" | .then_ => K "THEN" | .else_ => K "ELSE" | .end_ => K "END" | .if_ => K "IF"
+  | .cast => K "CAST" | .as_ => K "AS"
+  | .litStart => K "EXISTS" | .other => .bad
 
 theorem tk_kindOfTK (k : TK) : tk (kindOfTK k) = k := by cases k <;> decide
 
@@ -96,9 +98,27 @@ theorem allWF_yield : (e : Expr) → allWF (yield e) = true
   | .index e none i => by simp [yield, allWF_cons, allWF_append, allWF_yield e, allWF_yield i, wfTok, T, allWF_nil]
   | .index e (some (k, sp)) i => by
     simp [yield, allWF_cons, allWF_append, allWF_yield e, allWF_yield i, wfTok, T, allWF_nil]
+  | .caseE o c t ws el => by
+    have h2 : allWF (yieldO [{ k := TK.else_ }] el) = true := allWF_yieldO [T .else_] el rfl
+    simp [yield, allWF_cons, allWF_append, allWF_yieldO [] o rfl, allWF_yield c, allWF_yield t, allWF_yieldW ws,
+      h2, wfTok, T, allWF_nil]
+  | .ifE c t e => by
+    simp [yield, allWF_cons, allWF_append, allWF_yield c, allWF_yield t, allWF_yield e, wfTok, T, allWF_nil]
+  | .array .nil => by simp [yield, allWF_cons, wfTok, T, allWF_nil]
+  | .cast e ns => by
+    simp [yield, allWF_cons, allWF_append, allWF_yield e, allWF_pathToks ns, wfTok, T, allWF_nil]
+  | .array (.cons e es) => by
+    simp [yield, allWF_cons, allWF_append, allWF_yield e, allWF_yields es, wfTok, T, allWF_nil]
 theorem allWF_yields : (m : Exprs) → allWF (yields m) = true
   | .nil => rfl
   | .cons e es => by simp [yields, allWF_cons, allWF_append, allWF_yield e, allWF_yields es, wfTok, T]
+theorem allWF_yieldW : (ws : Whens) → allWF (yieldW ws) = true
+  | .nil => rfl
+  | .cons c t ws => by
+    simp [yieldW, allWF_cons, allWF_append, allWF_yield c, allWF_yield t, allWF_yieldW ws, wfTok, T]
+theorem allWF_yieldO (pre : List Tok') : (o : OExpr) → allWF pre = true → allWF (yieldO pre o) = true
+  | .none, _ => rfl
+  | .some e, h => by simp [yieldO, allWF_append, allWF_yield e, h]
 end
 
 /-- the canonical tokens of a yield read it -/
